@@ -17,7 +17,7 @@ SPELL = ['rel', 'abs', 'trail1', 'trail2', 'trail3', 'abs_trail',
 def config(tier):
     return {
         'level': 'exploration',
-        'cases': 1200 if tier == 'quick' else 80000,
+        'cases': 3500 if tier == 'quick' else 80000,
         'budget_s': 45 if tier == 'quick' else 560,
         'floors': {'cases': 250, 'links_trashed': 150, 'restored_ok': 100,
                    'targets_checked': 150},
